@@ -35,6 +35,7 @@ structure St where
   iws : Int                       -- sc.initialWindowSize
   streams : List (Nat × Int)      -- sc.streams: id ↦ stream.flow.n
   sq : List (Nat × List Wr)       -- ws.sq
+  hcr : List Nat := []            -- streams in stateHalfClosedRemote (the request carried END_STREAM)
   dead : Bool := false            -- a connection error was raised (GOAWAY)
 deriving Repr
 
@@ -169,20 +170,37 @@ def Out.ends : Out → Option Nat
   | .data id _ _ _ true _ => some id
   | _ => none
 
-/-- `take` as the serve loop uses it: after a frame with END_STREAM was written, `wroteFrame`
-    closes the stream (`closeStream` -> `forgetStream`). -/
-def takeW (s : St) (ord1 ord2 : List Nat) : Out × St :=
-  let r := take s ord1 ord2
-  match r.1.ends with
-  | some id => (r.1, forget r.2 id)
-  | none => r
+/-- `wroteFrame` for a frame that carried END_STREAM on stream `id`:
+    * stateOpen: `resetStream(NO_ERROR)` — the RST_STREAM is queued as a stream-less frame — then closeStream;
+    * stateHalfClosedRemote: closeStream.
+    (`resetStream`'s own `scheduleFrameWrite` hands the oldest stream-less frame to the writer before
+    `closeStream` runs; since stream-less frames are always served first this is the same as closing
+    first and scheduling afterwards, which is what `takeChain` does.) -/
+def afterEnd (s : St) (id : Nat) : St :=
+  if s.hcr.contains id then forget s id else forget { s with zero := s.zero + 1 } id
+
+/-- the writer becomes free: `scheduleFrameWrite` takes a frame; if it carries END_STREAM, `wroteFrame`
+    closes the stream and schedules again.  `ords` = the map-iteration orders of the successive takes
+    (missing ones = empty order).  Returns the frames in the order they are handed to the writer. -/
+def takeChain : Nat → St → List (List Nat) → List Out × St
+  | 0, s, _ => ([], s)
+  | fuel + 1, s, ords =>
+    let r := take s (ords.headD []) (ords.headD [])
+    match r.1.ends with
+    | some id =>
+      let rest := takeChain fuel (afterEnd r.2 id) ords.tail
+      (r.1 :: rest.1, rest.2)
+    | none => (if r.1 == .nothing then [] else [r.1], r.2)
+
+/-- every END_STREAM closes a stream that has a queue, so at most `sq.length` of them chain up -/
+def chainFuel (s : St) : Nat := s.sq.length + 2
 
 inductive Op where
-  | openS (id : Nat)
+  | openS (id : Nat) (hcr : Bool)
   | addData (id len : Nat) (endS : Bool)
   | addHdr (id : Nat) (endS : Bool)
   | addCtl
-  | takeOp (ord1 ord2 : List Nat)
+  | takeOp (ords : List (List Nat))
   | wu (id inc : Nat)
   | setIws (v : Nat)
   | setMfs (v : Nat)
@@ -203,39 +221,41 @@ def growAll (g : Int) : List (Nat × Int) → Option (List (Nat × Int))
     | some n', some r' => some ((id, n') :: r')
     | _, _ => none
 
-/-- one harness/serve-loop operation; the `String` is the canonical result token.
+/-- one harness/serve-loop operation; the `String` is the canonical result token, the list the frames
+    handed to the writer.
     `msg` is the number of the next DATA message. -/
-def step (s : St) (msg : Nat) : Op → String × Option Out × St
-  | .openS id =>
-    if (s.streams.lookup id).isSome then ("!", none, s)
+def step (s : St) (msg : Nat) : Op → String × List Out × St
+  | .openS id h =>
+    if (s.streams.lookup id).isSome then ("!", [], s)
     else
       match flowAdd 0 s.iws with
-      | some n => ("+", none, { s with streams := setKey id n s.streams })
-      | none => ("!", none, s)
+      | some n => ("+", [], { s with streams := setKey id n s.streams,
+                                     hcr := if h then id :: s.hcr else s.hcr.filter (· != id) })
+      | none => ("!", [], s)
   | .addData id len e =>
-    if (s.streams.lookup id).isSome then ("+", none, pushQ s id (.data msg 0 len e)) else ("!", none, s)
+    if (s.streams.lookup id).isSome then ("+", [], pushQ s id (.data msg 0 len e)) else ("!", [], s)
   | .addHdr id e =>
-    if (s.streams.lookup id).isSome then ("+", none, pushQ s id (.hdr e)) else ("!", none, s)
-  | .addCtl => ("+", none, { s with zero := s.zero + 1 })
-  | .takeOp o1 o2 => let r := takeW s o1 o2; ("t", some r.1, r.2)
+    if (s.streams.lookup id).isSome then ("+", [], pushQ s id (.hdr e)) else ("!", [], s)
+  | .addCtl => ("+", [], { s with zero := s.zero + 1 })
+  | .takeOp ords => let r := takeChain (chainFuel s) s ords; ("t", r.1, r.2)
   | .wu id inc =>
     if id == 0 then
       match flowAdd s.conn inc with
-      | some n => ("ok", none, { s with conn := n })
-      | none => ("goaway", none, { s with dead := true })
+      | some n => ("ok", [], { s with conn := n })
+      | none => ("goaway", [], { s with dead := true })
     else
       match s.streams.lookup id with
-      | none => ("nostream", none, s)
+      | none => ("nostream", [], s)
       | some n =>
         match flowAdd n inc with
-        | some n' => ("ok", none, { s with streams := setKey id n' s.streams })
-        | none => ("rst", none, forget s id)
+        | some n' => ("ok", [], { s with streams := setKey id n' s.streams })
+        | none => ("rst", [], forget { s with zero := s.zero + 1 } id)   -- resetStream: RST_STREAM queued
   | .setIws v =>
     match growAll ((v : Int) - s.iws) s.streams with
-    | some st' => ("ok", none, { s with iws := v, streams := st' })
-    | none => ("err", none, { s with iws := v, dead := true })
-  | .setMfs v => ("+", none, { s with mfs := v })
+    | some st' => ("ok", [], { s with iws := v, streams := st' })
+    | none => ("err", [], { s with iws := v, dead := true })
+  | .setMfs v => ("+", [], { s with mfs := v })
   | .forgetOp id =>
-    if (s.streams.lookup id).isSome then ("+", none, forget s id) else ("!", none, s)
+    if (s.streams.lookup id).isSome then ("+", [], forget s id) else ("!", [], s)
 
 end BfeVerif.C34
